@@ -50,6 +50,7 @@ class Produced:
 
 
 def programs(tier: str):
+    yield from _five(tier)
     b = BOUNDS[tier]
     for n in b["callers"]:
         for rest in itertools.product("ab", repeat=n - 1):
@@ -81,6 +82,14 @@ def programs(tier: str):
                                     }
 
 
+def _five(tier: str):
+    # five callers, two keys, entries expiring at different instants (a hit in between re-orders
+    # the LRU): refreshing the expired key must not disturb the other, still valid one
+    for keys in ("ababb", "abaab") if tier == "quick" else ("ababb", "abaab", "abbab", "aabab"):
+        for variant in ("function", "method"):
+            yield {"keys": keys, "limit": 2, "expiration": 2, "outcome": "value", "cancels": 0, "batch": 1, "variant": variant, "instant": True}
+
+
 def explore_config(tier: str, program) -> dict:
     heavy = len(program["keys"]) >= 3 and program["cancels"] >= 1
     return {"cap": 400000, "split_depth": 3 if heavy else 0}
@@ -98,7 +107,8 @@ def execute(program, ch: Chooser) -> Result:  # noqa: C901, PLR0912, PLR0915
             rec = {"key": key, "n": len(started), "saw_cancel": False, "done": False}
             started.append(rec)
             try:
-                await w.pause(f"inv{rec['n']}")
+                if not program.get("instant"):
+                    await w.pause(f"inv{rec['n']}")
             except asyncio.CancelledError:
                 rec["saw_cancel"] = True
                 raise
@@ -159,7 +169,7 @@ def execute(program, ch: Chooser) -> Result:  # noqa: C901, PLR0912, PLR0915
         tasks: list[asyncio.Task] = []
         # two small advances (1.25 each, expiration 2): entries created at different instants
         # can expire at different instants; never exactly on the boundary
-        adv = {"left": (2 if len(keys) <= 3 and program["cancels"] <= 1 and program["batch"] == 1 else 1) if expiration is not None else 0}
+        adv = {"left": (2 if (len(keys) <= 3 or program.get("instant")) and program["cancels"] <= 1 and program["batch"] == 1 else 1) if expiration is not None else 0}
         step = 1.25 if adv["left"] == 2 else 3.0
 
         def extra():
